@@ -47,6 +47,13 @@ func VerifBookletAccepted() {
 	for p := 1; p <= m; p++ {
 		pages[p] = true
 	}
+	// a negated selection term ("1-m,!q") leaves an entry with value false in the set: that page is NOT selected
+	q := []int{0, 1, m}[vp.Choice(3)]
+	selected := m
+	if q > 0 {
+		pages[q] = false
+		selected--
+	}
 	order := pdfcpu.VerifExportGetBookletOrdering(pages, nup)
 	vp.Assert(len(order)%(2*n) == 0, "slot count is not a whole number of sheets")
 	seen := make([]int, m+1)
@@ -55,7 +62,11 @@ func VerifBookletAccepted() {
 		seen[bp.Number]++
 	}
 	for p := 1; p <= m; p++ {
+		if p == q {
+			vp.Assert(seen[p] == 0, "a page that was deselected is placed")
+			continue
+		}
 		vp.Assert(seen[p] == 1, "a selected page is not placed exactly once")
 	}
-	vp.Assert(seen[0] == len(order)-m, "blank slots do not fill the remainder")
+	vp.Assert(seen[0] == len(order)-selected, "blank slots do not fill the remainder")
 }
